@@ -9,6 +9,7 @@ import (
 	"net/url"
 	"os"
 	"path/filepath"
+	"sort"
 	"strings"
 	"testing"
 
@@ -70,6 +71,12 @@ func replay(sub string, raw json.RawMessage) ([]h.Failure, error) {
 			return nil, err
 		}
 		return checkRepeat(c), nil
+	case "exprmap":
+		var c exprMapCase
+		if err := json.Unmarshal(raw, &c); err != nil {
+			return nil, err
+		}
+		return checkExprMap(c), nil
 	case "request":
 		var c reqCase
 		if err := json.Unmarshal(raw, &c); err != nil {
@@ -332,7 +339,41 @@ func TestRepeatPrograms(t *testing.T) {
 	rapid.Check(t, func(t *rapid.T) {
 		var c progCase
 		labels := []string{}
-		switch rapid.IntRange(0, 5).Draw(t, "kind") {
+		switch rapid.IntRange(0, 7).Draw(t, "kind") {
+		case 6, 7: // dictionaries holding values that cannot be compared (objects, methods) next to
+			// entries that differ: whether the answer is an error or 假 must not depend on
+			// which entry is examined first
+			n := rapid.IntRange(2, 6).Draw(t, "n")
+			keys := rapid.Permutation([]string{"q", "w", "e", "r", "t", "y"}).Draw(t, "keys")[:n]
+			var ps, qs []string
+			hard, diff := 0, 0
+			for i, k := range keys {
+				va, vb := fmt.Sprint(i), fmt.Sprint(i)
+				switch rapid.IntRange(0, 3).Draw(t, "ek") {
+				case 0:
+					va, vb = "物", "物"
+					hard++
+				case 1:
+					va, vb = "物", "另"
+					hard++
+				case 2:
+					vb = "99"
+					diff++
+				}
+				ps = append(ps, fmt.Sprintf("“%s” = %s", k, va))
+				qs = append(qs, fmt.Sprintf("“%s” = %s", k, vb))
+			}
+			if rapid.Bool().Draw(t, "rev") {
+				for i, j := 0, len(qs)-1; i < j; i, j = i+1, j-1 {
+					qs[i], qs[j] = qs[j], qs[i]
+				}
+			}
+			rel := rapid.SampledFrom([]string{"输出甲 为 乙", "输出甲 == 乙", "输出甲 不为 乙", "输出以【甲】（包含：乙）", "输出以【1，甲】（寻找：乙）", "输出以【【甲】】（包含：【乙】）", "输出【“p” = 甲】 为 【“p” = 乙】"}).Draw(t, "rel")
+			c.Src = "定义狗：\n    其名 = “黄”\n令物 = （新建狗）\n令另 = （新建狗）\n令甲 = 【" + strings.Join(ps, "，") + "】\n令乙 = 【" + strings.Join(qs, "，") + "】\n" + rel
+			labels = append(labels, "incomparable-entries")
+			if hard > 0 && diff > 0 {
+				labels = append(labels, "error-or-false-race")
+			}
 		case 0, 1: // values built from external data: parsed JSON displayed, iterated, re-generated, compared
 			c.Text = genJSONDoc(t, 2)
 			c.Src = "导入《@JSON》\n输入文\n令典 = （解析JSON：文）\n（显示：典）\n以键、值遍历典：\n    （显示：键、值）\n（显示：典之所有索引、典之所有值）\n（显示：（生成JSON：典））\n输出典 为 （解析JSON：（生成JSON：典））"
@@ -425,6 +466,70 @@ func TestRequestOrder(t *testing.T) {
 		}
 		key, _ := json.Marshal(c)
 		h.R.Case(t, "request", string(key), c, []string{"http-request"}, true, checkRequest(c))
+	})
+}
+
+// ---------------------------------------------------------------------------------------
+// (iv) a map of expression texts (exec.ExecExpressionInputText): with several invalid entries
+// the reported error must not depend on the order in which the Go map is walked
+
+type exprMapCase struct {
+	Exprs map[string]string `json:"exprs"`
+}
+
+func checkExprMap(c exprMapCase) []h.Failure {
+	first := ""
+	for i := 0; i < repeats; i++ {
+		var got string
+		kind, msg, site := h.Guard(func() {
+			res, err := exec.ExecExpressionInputText(c.Exprs)
+			if err != nil {
+				got = "error=" + err.Error()
+				return
+			}
+			keys := make([]string, 0, len(res))
+			for k := range res {
+				keys = append(keys, k)
+			}
+			sort.Strings(keys)
+			for _, k := range keys {
+				got += k + "=" + res[k].String() + ";"
+			}
+		})
+		if kind != "" {
+			return []h.Failure{{Sig: "exprmap/" + kind + "@" + site, Msg: msg}}
+		}
+		if i == 0 {
+			first = got
+		} else if got != first {
+			return []h.Failure{{Sig: "exprmap/runs-differ", Msg: fmt.Sprintf("expressions %v\nrun 1:  %s\nrun %d: %s", c.Exprs, first, i+1, got)}}
+		}
+	}
+	return nil
+}
+
+func TestExprMapOrder(t *testing.T) {
+	good := []string{"1", "1 + 2", "“文”", "【1，2】", "【“k” = 1】", "真"}
+	bad := []string{"未知甲", "未知乙", "未知丙", "1 / 0", "【1】#5", "1 +", "（（", "“a” + 1", "令A = 1"}
+	rapid.Check(t, func(t *rapid.T) {
+		n := rapid.IntRange(2, 7).Draw(t, "n")
+		keys := rapid.Permutation([]string{"a", "b", "c", "d", "e", "f", "g"}).Draw(t, "keys")[:n]
+		c := exprMapCase{Exprs: map[string]string{}}
+		nbad := 0
+		for _, k := range keys {
+			if rapid.IntRange(0, 2).Draw(t, "isbad") == 0 {
+				c.Exprs[k] = rapid.SampledFrom(bad).Draw(t, "bad")
+				nbad++
+			} else {
+				c.Exprs[k] = rapid.SampledFrom(good).Draw(t, "good")
+			}
+		}
+		labels := []string{"expr-map"}
+		if nbad >= 2 {
+			labels = append(labels, "several-invalid-entries")
+		}
+		key, _ := json.Marshal(c)
+		h.R.Case(t, "exprmap", string(key), c, labels, nbad >= 2, checkExprMap(c))
 	})
 }
 
